@@ -830,6 +830,9 @@ def _serve_socket_threaded(
             with state_lock:
                 conn_count += 1
                 _cancel_timer_locked()
+                # The idle timer may have fired (at zero connections) while this
+                # connection was on its way in; serving it means we are not idle.
+                shutdown_requested = False
             t = threading.Thread(
                 target=_handle,
                 args=(conn,),
